@@ -311,3 +311,8 @@ mutant("c19-manual-positional-guard-off-by-one", "C19", "jax2onnx/plugins/jax/nu
 mutant("c11-version-gated-dtype-partial", "C11", "jax2onnx/plugins/jax/numpy/arange.py", "            if result_dtype not in _OPSET27_NATIVE_RANGE_DTYPES\n            or use_native_range_dtype", "            if result_dtype != np.dtype(jnp.bfloat16)\n            or use_native_range_dtype", expect="R-C11d")
 mutant("c07-function-counter-keyed-by-target", "C07", PS, '        counter_key = (namespace, base, "shared")', '        counter_key = (namespace, self.name, "shared")', expect="R-C07d")
 benign("c07-benign-counter-key-order", "C07", PS, '        counter_key = (namespace, base, "shared")', '        counter_key = ("shared", base, namespace)')
+mutant("c02-inverse-perm-helper-weakened", "C02", OPT, "    composed = [perm1[p] for p in perm2]\n    return composed == list(range(len(composed)))", "    return sorted(perm1) == sorted(perm2)", expect="R-C02h")
+benign("c02-benign-inverse-perm-rewritten", "C02", OPT, "    composed = [perm1[p] for p in perm2]\n    return composed == list(range(len(composed)))", "    return all(perm1[p] == i for i, p in enumerate(perm2))")
+mutant("c12-range-check-weakened-by-conjunction", "C12", CAF, "        if idx < 0 or idx >= upper_bound:", "        if idx < 0 or (idx >= upper_bound and upper_bound > 1):", expect="out-of-range")
+mutant("c05-uniqueness-check-weakened-by-conjunction", "C05", UIF, "    if len(set(targets)) != len(targets):", "    if len(set(targets)) != len(targets) and output_names is not None:", expect="unique-targets")
+mutant("c06-missing-jaxpr-check-weakened", "C06", LAXD + "while_loop.py", "        if cond_cj is None or body_cj is None:", "        if cond_cj is None and body_cj is None:", expect="missing-jaxprs")
